@@ -197,9 +197,9 @@ Theorem process_preserves_original_partial : forall s w l,
   mem_loc l leaked = false -> after_process s w l = s l.
 Proof. exact Proofs.process_preserves_original_partial. Qed.
 
-(* ... but nested blocks, pointer fields of statements and call-argument slices are shared
-   with the caller and written in place *)
-Theorem leaked_locations : leaked = [LNestedBlocks; LStmtPtrs; LCallArgs].
+(* ... but nested blocks, pointer fields of statements, call-argument slices and the pointer
+   fields of image expressions are shared with the caller and written in place *)
+Theorem leaked_locations : leaked = [LNestedBlocks; LStmtPtrs; LCallArgs; LExprPtrs].
 Proof. exact Proofs.leaked_locations. Qed.
 Theorem process_preserves_original_refuted : exists s w l, after_process s w l <> s l.
 Proof. exact Proofs.process_preserves_original_refuted. Qed.
